@@ -12,6 +12,7 @@ CONSTANTS
     PRIOS <- PriosFull
     JUNK = {"garbage","empty","badma","nop2p"}
     MAXJUNK = 1
+    REKEEP = FALSE
     MAXSAVES = 2
     ImportCleans = TRUE
     UnmarshalMode = "merge"
